@@ -1,1 +1,8 @@
-// harness part (stub)
+// C13 harness part (stub until built)
+use crate::verif::vx::report::Report;
+
+pub(crate) fn run_c13(_replay: Option<&str>) -> Report {
+    let mut rep = Report::new("C13", "hd-c13");
+    rep.machinery_error = Some("harness not built yet".into());
+    rep
+}
